@@ -428,7 +428,7 @@ def run(ctx):
             cpp = [pr for pr in progs if pr[1] == "CPP"]
             cs = [pr for pr in progs if pr[1] in ("C", "OC")]
             for n, (k, v) in enumerate(sorted(x for x in singles if x[0].startswith("mod_"))):
-                for pool, off in ((cpp, 0), (cpp, 1), (cs, 0)):
+                for pool, off in [(cpp, x) for x in range(len(cpp))] + [(cs, 0), (cs, 1)]:
                     if len(pool) > off:
                         p, lang, txt = pool[(n + off) % len(pool)]
                         jobs.append(pipeline.Job("single", sc.cfg(None, {k: v}), p, lang, {"opts": {k: v}, "text": txt, "kind": "mod-single"}))
